@@ -39,6 +39,16 @@ CHECKS['C15'] = dict(level='translation_validation', ref='4/C15',
 CHECKS['C14'] = dict(level='other', ref='4/C14',
    text="The main() functions of hexasm, xcmp, xrun and hexsim are executed from their IR with C++ exception handling modelled, under every combination of argv shape and stage outcome (returns / throws hexutil::Error / throws std::runtime_error) with Processor::run's value symbolic: exit status 0 iff nothing failed, the -o name (default a.out) is the one handed to the emitter, nothing is written after a failure, xrun/hexsim return the program's exit value (proved by z3).",
    note="Trusted: irsym's EH model, the stage cuts (library stages reduced to their outcome), enumeration of argv shapes; diagnostic text and 8-bit status truncation outside.")
+TVNOTE = "Trusted: irsym, z3/cvc5, the X reference interpreter ref/xref.py (written from xhexnotes.pdf, shares no code with xcmp), hexsim's step as ISA model (decided in C02), HexSimIO cut to events; the program space is enumerated (generator + skeletons + shipped programs), only data (inputs, designated globals) is symbolic; budgets 2000/4000 instructions, 64 paths, 60 s per program."
+CHECKS['C01'] = dict(level='translation_validation', ref='4/C01',
+   text="Per program: the binary emitted by the xcmp built from the working tree runs on the IR of hexsim::Processor::run with symbolic input bytes and symbolic 32-bit initial values of designated globals; the independent X reference interpreter runs the source on the same symbols; z3 proves for every pair of reference path and binary path equal outputs, input consumption and exit value. Programs: bounded-exhaustive expression generator x contexts, control-flow/recursion/array/string skeletons, shipped tests/x.",
+   note=TVNOTE)
+CHECKS['C07'] = dict(level='translation_validation', ref='4/C07',
+   text="Compositional: ConstProp's folding of the ten binary and two unary operators on real AST nodes equals the reference operator for all 2^64 operand pairs (z3); val propagation yields the declared constant; constants materialise exactly (C04, DATA emission, immediate/pool threshold programs); every operator/placement with variable and with constant operands is translation-validated against the reference for all values.",
+   note=TVNOTE)
+CHECKS['C08'] = dict(level='translation_validation', ref='4/C08',
+   text="A monitor on the translation-validation runs checks every fetch, load and store made while the compiled program runs: word index below 200000, no store into a fetched word, stores only into DATA words or above the image, stack pointer never above its load-time value and restored when main returns; symbolic addresses are decided by z3.",
+   note=TVNOTE)
 NA = {}
 ALL = [json.loads(l)['id'] for l in open(os.path.join(V, 'properties.jsonl'))]
 PENDING = "check not built yet in this session (planned in DESIGN.md); not claimed until it exists"
